@@ -13,7 +13,8 @@ RULE = ('Histories (lists of operations, shrunk as one value) over a 3-ary name 
         'and app.NDNApp.express_interest inside their real main_loop() on a virtual-time loop with an in-memory face. Ops: '
         'express(name, lifetime in {5,50,4000 ms}, CanBePrefix, implicit digest none/right/wrong, validator latency relative to '
         'the deadline, verdict), data(name), nack(interest or name, reason), advance(ms | to deadline of i -1/0/+1 ms), '
-        'cancel(i), shutdown; packets delivered by await or create_task; the result awaited at once or some time after express(); '
+        'cancel(i) - optionally racing the Data / Nack that answers i in the same loop iteration -, shutdown; packets delivered by await or '
+        'create_task; the result awaited at once or some time after express(); '
         'one InterestParam object optionally re-used for every expression; an optional second application instance. Oracle: reference pending-Interest model computing '
         'the allowed outcome set of every Interest from the event log (ties within 1 ms of a deadline allow both neighbours); '
         'plus: _receive never raises, no unhandled loop error, nothing left pending, late packets are inert, a fresh Interest on '
@@ -62,7 +63,7 @@ def _history():
         st.fixed_dictionaries({'op': st.just('adv'), 'ms': st.sampled_from([0, 1, 2, 4, 5, 6, 30, 49, 50, 51, 100, 5000])}),
         st.fixed_dictionaries({'op': st.just('adv_to'), 'i': st.integers(0, 7), 'delta': st.sampled_from([-1, 0, 1]),
                                'what': st.sampled_from(['deadline', 'validator'])}))
-    cancel = st.fixed_dictionaries({'op': st.just('cancel'), 'i': st.integers(0, 7)})
+    cancel = st.fixed_dictionaries({'op': st.just('cancel'), 'i': st.integers(0, 7), 'race': st.sampled_from([None, None, 'data', 'nack'])})
     op = st.one_of(express, express, data, data, data, nack, adv, adv, adv, cancel)
     free = st.tuples(st.lists(express, min_size=1, max_size=4), st.lists(op, min_size=2, max_size=20),
                      st.sampled_from([[], [], [], [{'op': 'shutdown'}]])).map(lambda t: t[0] + t[1] + t[2])
@@ -257,7 +258,20 @@ def _run(sim, fe, ops, r):
             if e['h'].done_count == 0 and 'cancel_at' not in e and e['h'].awaiting:
                 e['cancel_at'] = sim.vl.now_ms()
                 events.append((sim.vl.now_ms(), 'cancel', ents.index(e)))
-                sim.cancel(e['h'])
+                race = op.get('race')
+                if race and alive and e['h'].wire is not None:
+                    # the answer to this very Interest was handed over by the face in the same loop iteration: the cancellation
+                    # takes effect at once, the packet is handled right after it (and may still serve other Interests)
+                    if race == 'data':
+                        w = data_for(e['name'])
+                        events.append((sim.vl.now_ms(), 'data', (e['name'], w)))
+                    else:
+                        w = net.lp_wrap(e['h'].wire, nack_reason=150)
+                        events.append((sim.vl.now_ms(), 'nack', (e['comps'], 150)))
+                    sim.deliver_then_cancel(w, e['h'])
+                    flags.add('cancel-races-packet')
+                else:
+                    sim.cancel(e['h'])
                 trace.append('C')
         elif k == 'shutdown':
             if alive:
